@@ -376,7 +376,7 @@ Section PackProofs.
            (match f with
             | FV10 | FRC2 => match m_config m with Some c => d_mt c | None => [] end
             | _ => m_at m
-            end) [].
+            end) no_extra.
 
   Inductive outcome (f : fn) (tc : tcfg) (fa : option nat) (s : state) (at_ : str) (o : opts) (now : str)
     : state -> result -> Prop :=
@@ -409,7 +409,7 @@ Section PackProofs.
 
   Lemma push_manifest_spec tc fa s m at_ s' r :
     push_manifest marshal H tc fa s m at_ = (s', r) ->
-    forall d, d = mkDesc (kind_mt (m_kind m)) (H (marshal m)) (Z.of_nat (length (marshal m))) (m_ann m) at_ [] ->
+    forall d, d = mkDesc (kind_mt (m_kind m)) (H (marshal m)) (Z.of_nat (length (marshal m))) (m_ann m) at_ no_extra ->
     steps s s' [EvPush RManifest d (marshal m)] /\
     (r = Ok d m /\ stored (t_key tc) (s_store s') d = true \/ r = Err EInjected /\ may_fail tc fa).
   Proof.
